@@ -4415,3 +4415,238 @@ func E9EllipseQuadraticMirror(c *core.Ctx, r *core.Report) {
 		r.Fail("E9.ellipse-quadratic-mirror", key, c.Pos(branch.Pos()), bad+": the roots on one of the two paths are not the intersections of the line with the ellipse")
 	}
 }
+
+// walkStack visits every node under root with the chain of its ancestors (root first, the node itself excluded).
+func walkStack(root ast.Node, f func(n ast.Node, stack []ast.Node)) {
+	var stack []ast.Node
+	ast.Inspect(root, func(n ast.Node) bool {
+		if n == nil {
+			stack = stack[:len(stack)-1]
+			return true
+		}
+		f(n, stack)
+		stack = append(stack, n)
+		return true
+	})
+}
+
+// andTerms flattens a conjunction.
+func andTerms(e ast.Expr) []ast.Expr {
+	e = core.Unparen(e)
+	if b, ok := e.(*ast.BinaryExpr); ok && b.Op == token.LAND {
+		return append(andTerms(b.X), andTerms(b.Y)...)
+	}
+	return []ast.Expr{e}
+}
+
+// positiveFieldTest: e establishes that <x>.<field> is positive (0 < x.f, x.f > 0, x.f != 0, 1 <= x.f, x.f >= 1).
+func positiveFieldTest(c *core.Ctx, info *types.Info, e ast.Expr, x, field string) bool {
+	b, ok := core.Unparen(e).(*ast.BinaryExpr)
+	if !ok {
+		return false
+	}
+	isF := func(e ast.Expr) bool {
+		se, ok := core.Unparen(e).(*ast.SelectorExpr)
+		return ok && se.Sel.Name == field && c.Src(se.X) == x
+	}
+	cst := func(e ast.Expr) (int64, bool) { return core.ConstInt(info, e) }
+	if isF(b.Y) {
+		if v, ok := cst(b.X); ok {
+			return (v == 0 && (b.Op == token.LSS || b.Op == token.NEQ)) || (v == 1 && b.Op == token.LEQ)
+		}
+	}
+	if isF(b.X) {
+		if v, ok := cst(b.Y); ok {
+			return (v == 0 && (b.Op == token.GTR || b.Op == token.NEQ)) || (v == 1 && b.Op == token.GEQ)
+		}
+	}
+	return false
+}
+
+// E9StitchSelectsUnconsumed: the contour builder only continues along an edge whose inResult count is still positive.
+func E9StitchSelectsUnconsumed(c *core.Ctx, r *core.Report) {
+	r.Rule("E9.stitch-selects-unconsumed", "bentleyOttmann's contour builder uses every edge of the result as often as its inResult count says: stepping onto an edge decrements the count (`cur.inResult--`). The edge it steps onto is therefore chosen among edges whose count is still positive: in the loop that holds the decrement, every assignment of a candidate to the variable that becomes `cur` lies under a condition with a conjunct `0 < <candidate>.inResult` on the live counter. A flag that was true before stitching began (resultEdge) is not such a test: at a vertex where a zero-area spike ends the builder walks an edge a second time and the output has contours with winding 3 or overlapping each other")
+	p := c.MustPkg("")
+	info := p.TypesInfo
+	fd := core.MustFuncDecl(p, "bentleyOttmann")
+	r.Func("canvas.bentleyOttmann")
+	// loops holding a decrement of inResult, with the decremented variable
+	type site struct {
+		loop *ast.ForStmt
+		v    types.Object
+	}
+	var sites []site
+	walkStack(fd.Body, func(n ast.Node, stack []ast.Node) {
+		ids, ok := n.(*ast.IncDecStmt)
+		if !ok || ids.Tok != token.DEC {
+			return
+		}
+		se, ok := ids.X.(*ast.SelectorExpr)
+		if !ok || se.Sel.Name != "inResult" {
+			return
+		}
+		id, ok := core.Unparen(se.X).(*ast.Ident)
+		if !ok {
+			return
+		}
+		for i := len(stack) - 1; i >= 0; i-- {
+			if fs, ok := stack[i].(*ast.ForStmt); ok {
+				o := core.ObjOf(info, id)
+				for _, s := range sites {
+					if s.loop == fs && s.v == o {
+						return
+					}
+				}
+				sites = append(sites, site{fs, o})
+				return
+			}
+			if _, ok := stack[i].(*ast.RangeStmt); ok {
+				return
+			}
+		}
+	})
+	n := 0
+	for _, s := range sites {
+		// variables assigned to the stepped variable inside the loop
+		var cands []types.Object
+		ast.Inspect(s.loop.Body, func(m ast.Node) bool {
+			as, ok := m.(*ast.AssignStmt)
+			if !ok || len(as.Lhs) != len(as.Rhs) {
+				return true
+			}
+			for i, l := range as.Lhs {
+				if lid, ok := l.(*ast.Ident); ok && core.ObjOf(info, lid) == s.v {
+					if rid, ok := core.Unparen(as.Rhs[i]).(*ast.Ident); ok {
+						cands = append(cands, core.ObjOf(info, rid))
+					}
+				}
+			}
+			return true
+		})
+		for _, cand := range cands {
+			walkStack(s.loop.Body, func(m ast.Node, stack []ast.Node) {
+				as, ok := m.(*ast.AssignStmt)
+				if !ok || len(as.Lhs) != len(as.Rhs) {
+					return
+				}
+				for i, l := range as.Lhs {
+					lid, ok := l.(*ast.Ident)
+					if !ok || core.ObjOf(info, lid) != cand {
+						continue
+					}
+					if tv, ok := info.Types[as.Rhs[i]]; ok && tv.IsNil() {
+						continue
+					}
+					n++
+					src := c.Src(as.Rhs[i])
+					key := fmt.Sprintf("canvas.bentleyOttmann|candidate #%d for the next edge has a positive inResult", n)
+					good := false
+					var child ast.Node = as
+					for k := len(stack) - 1; k >= 0 && !good; k-- {
+						if is, ok := stack[k].(*ast.IfStmt); ok && child == ast.Node(is.Body) {
+							for _, t := range andTerms(is.Cond) {
+								if positiveFieldTest(c, info, t, src, "inResult") {
+									good = true
+								}
+							}
+						}
+						child = stack[k]
+					}
+					if good {
+						r.OK("E9.stitch-selects-unconsumed", key, c.Pos(as.Pos()), src)
+					} else {
+						r.Fail("E9.stitch-selects-unconsumed", key, c.Pos(as.Pos()), fmt.Sprintf("`%s` becomes the next edge of the contour without a test that its inResult count is still positive: an edge that was already used up is walked again", src))
+					}
+				}
+			})
+		}
+	}
+	r.Count("E9.stitch-candidates", n)
+	r.Floor("E9.stitch-candidates", 1)
+}
+
+// E9NudgeSideFromTangent: the side to which a hit's direction is nudged is decided against the curve's own tangent.
+func E9NudgeSideFromTangent(c *core.Ctx, r *core.Report) {
+	r.Rule("E9.nudge-side-from-tangent", "where a curve meets the ray at an end point or is parallel to it at an inflection point, the line–curve helpers move the curve's direction `dirb` (the Angle() of its tangent T) by ±2·Epsilon to the side the curve turns to, so that the hit is counted as entering or leaving. Which side that is depends on the direction of travel: it is the sign of the turn of a higher derivative against T (T.PerpDot(T'') and the like). Every `if C { dirb += k } else { dirb -= k }` in a function that defines `dirb := T.Angle()` therefore has a condition C that reads T. A condition that measures the higher derivative against the ray instead (A.Dot(T''')) agrees with it for a curve running in the ray's direction and is the exact opposite for one running against it: Windings is off by two and a hole is reported as filled")
+	p := c.MustPkg("")
+	info := p.TypesInfo
+	n := 0
+	for _, fd := range core.AllFuncDecls(p) {
+		if fd.Body == nil {
+			continue
+		}
+		tangent := map[types.Object]types.Object{}
+		ast.Inspect(fd.Body, func(m ast.Node) bool {
+			as, ok := m.(*ast.AssignStmt)
+			if !ok || len(as.Lhs) != 1 || len(as.Rhs) != 1 {
+				return true
+			}
+			ce, ok := core.Unparen(as.Rhs[0]).(*ast.CallExpr)
+			if !ok || len(ce.Args) != 0 {
+				return true
+			}
+			se, ok := ce.Fun.(*ast.SelectorExpr)
+			if !ok || se.Sel.Name != "Angle" {
+				return true
+			}
+			tid, ok := core.Unparen(se.X).(*ast.Ident)
+			lid, ok2 := as.Lhs[0].(*ast.Ident)
+			if ok && ok2 {
+				tangent[core.ObjOf(info, lid)] = core.ObjOf(info, tid)
+			}
+			return true
+		})
+		if len(tangent) == 0 {
+			continue
+		}
+		step := func(b *ast.BlockStmt, tok token.Token) types.Object {
+			if b == nil || len(b.List) != 1 {
+				return nil
+			}
+			as, ok := b.List[0].(*ast.AssignStmt)
+			if !ok || as.Tok != tok || len(as.Lhs) != 1 {
+				return nil
+			}
+			if id, ok := as.Lhs[0].(*ast.Ident); ok {
+				return core.ObjOf(info, id)
+			}
+			return nil
+		}
+		ast.Inspect(fd.Body, func(m ast.Node) bool {
+			is, ok := m.(*ast.IfStmt)
+			if !ok {
+				return true
+			}
+			els, _ := is.Else.(*ast.BlockStmt)
+			v := step(is.Body, token.ADD_ASSIGN)
+			if v == nil || v != step(els, token.SUB_ASSIGN) {
+				v = step(is.Body, token.SUB_ASSIGN)
+				if v == nil || v != step(els, token.ADD_ASSIGN) {
+					return true
+				}
+			}
+			t := tangent[v]
+			if t == nil {
+				return true
+			}
+			n++
+			r.Func("canvas." + core.FuncName(fd))
+			key := fmt.Sprintf("canvas.%s|nudge #%d of `%s` is decided against the tangent `%s`", core.FuncName(fd), n, v.Name(), t.Name())
+			reads := false
+			ast.Inspect(is.Cond, func(q ast.Node) bool {
+				if id, ok := q.(*ast.Ident); ok && core.ObjOf(info, id) == t {
+					reads = true
+				}
+				return true
+			})
+			if reads {
+				r.OK("E9.nudge-side-from-tangent", key, c.Pos(is.Pos()), c.Src(is.Cond))
+			} else {
+				r.Fail("E9.nudge-side-from-tangent", key, c.Pos(is.Pos()), fmt.Sprintf("the condition `%s` does not read the tangent `%s`: the side the curve turns to depends on its direction of travel, so a curve traversed the other way is nudged to the wrong side and its crossing is counted with the opposite sign", c.Src(is.Cond), t.Name()))
+			}
+			return true
+		})
+	}
+	r.Count("E9.nudge-sites", n)
+	r.Floor("E9.nudge-sites", 3)
+}
